@@ -15,7 +15,7 @@ func props(ps ...string) map[string]bool {
 func unusedRoots(m *Model, n int) []Root {
 	var un []Root
 	for _, r := range pool {
-		if _, ok := m.first[r]; !ok {
+		if _, ok := m.first[r]; !ok && !m.everUsed[r] {
 			un = append(un, r)
 		}
 	}
@@ -39,6 +39,10 @@ func maxSlotOfRoot(m *Model, r Root) Slot {
 	}
 	return mx
 }
+
+// Invariant kept by every menu: no node carries a justified/finalized epoch above the store's
+// (a client raises the store's checkpoints in the same step in which it inserts such a block:
+// OpBlockUJ). Nodes with LOWER epochs (stale branches) are offered: they are the non-viable ones.
 
 // growth menu: blocks (forks, late blocks, double proposals, gaps), empty slots, votes
 // (known / unknown / older-epoch / same-epoch targets), head.
@@ -88,7 +92,8 @@ func growthMenu(nv uint64, withUJ bool) func(in *Inst) []fmt.Stringer {
 		}
 		ops = append(ops, voteOps(m, nv)...)
 		if withUJ {
-			ops = append(ops, ujOps(in, true)...)
+			ops = append(ops, ujOps(in, false)...)
+			ops = append(ops, blockUJOps(in)...)
 		}
 		return ops
 	}
@@ -113,9 +118,27 @@ func voteOps(m *Model, nv uint64) []fmt.Stringer {
 	return ops
 }
 
-// ujOps: candidate justified/finalized updates classified on a clone of the model; every refused
-// class is offered (two examples each), every applied pair is offered with balance variants.
-func ujOps(in *Inst, balVariants bool) []fmt.Stringer {
+// classify runs a candidate update on a clone. usable=false: the statement does not define the
+// outcome (see Model.UpdateJustified / no viable head left), the candidate is not offered.
+func classify(m *Model, trig Root, j, f Checkpoint) (res UJResult, usable bool) {
+	c := m.Clone()
+	res = c.UpdateJustified(trig, j, f, m.balances, false)
+	if res.Open {
+		return res, false
+	}
+	if res.Changed {
+		// After the update some node must still be a viable head. A store in which no node carries the
+		// new justified/finalized epochs cannot arise from beacon states; outcome undefined.
+		if _, st := c.Head(c.HeadAnchor()); st != HeadOK {
+			return res, false
+		}
+	}
+	return res, true
+}
+
+// ujOps: stand-alone justified/finalized updates (no new block): every refusal / no-change class
+// (two examples each); applied ones only if `applied` is set and the store stays consistent.
+func ujOps(in *Inst, applied bool) []fmt.Stringer {
 	m := in.M
 	var ops []fmt.Stringer
 	cands := func(cur Checkpoint, span Epoch) []Checkpoint {
@@ -132,7 +155,7 @@ func ujOps(in *Inst, balVariants bool) []fmt.Stringer {
 		}
 		out = append(out, Checkpoint{RU, cur.Epoch + 1})
 		if cur.Epoch > 0 {
-			out = append(out, Checkpoint{RA, cur.Epoch - 1})
+			out = append(out, Checkpoint{RA, cur.Epoch - 1}, Checkpoint{cur.Root, cur.Epoch - 1})
 		}
 		return out
 	}
@@ -144,19 +167,9 @@ func ujOps(in *Inst, balVariants bool) []fmt.Stringer {
 	perWhy := map[string]int{}
 	for _, j := range cands(m.justified, 1) {
 		for _, f := range cands(m.finalized, 1) {
-			c := m.Clone()
-			res := c.UpdateJustified(trig, j, f, m.balances, false)
-			if res.Open {
+			res, ok := classify(m, trig, j, f)
+			if !ok {
 				continue
-			}
-			if res.Changed {
-				// After the update some node must still be a viable head (from the new head anchor and,
-				// if finalization advanced onto an existing node, from that node). A store in which no
-				// node carries the new justified/finalized epochs cannot arise from beacon states, and the
-				// statement does not define the outcome (the implementation reports an error).
-				if _, st := c.Head(c.HeadAnchor()); st != HeadOK {
-					continue
-				}
 			}
 			if !res.Changed {
 				perWhy[res.Why]++
@@ -166,22 +179,105 @@ func ujOps(in *Inst, balVariants bool) []fmt.Stringer {
 				ops = append(ops, OpUJ{trig, j, f, "same"})
 				continue
 			}
-			ops = append(ops, OpUJ{trig, j, f, "same"})
-			if balVariants {
-				ops = append(ops, OpUJ{trig, j, f, "v0"})
-				if perWhy["applied-variants"] < 1 {
-					perWhy["applied-variants"]++
-					ops = append(ops, OpUJ{trig, j, f, "shrink"}, OpUJ{trig, j, f, "grow"}, OpUJ{trig, j, f, "err"})
-					// trigger variants (matter only while pinned)
-					ops = append(ops, OpUJ{RU, j, f, "same"})
-					for _, r := range m.KnownRoots() {
-						if r != trig {
-							ops = append(ops, OpUJ{r, j, f, "same"})
+			if applied {
+				ops = append(ops, OpUJ{trig, j, f, "same"}, OpUJ{trig, j, f, "v0"})
+			}
+		}
+	}
+	return ops
+}
+
+// blockUJOps: a new block on top of a leaf whose state justifies/finalizes checkpoints of ITS OWN
+// chain (consistent by construction), inserted and followed by the update. Balance variants on the
+// first applied candidates.
+func blockUJOps(in *Inst) []fmt.Stringer {
+	m := in.M
+	s := in.S
+	var ops []fmt.Stringer
+	if len(m.order) >= s.MaxNodes {
+		return nil
+	}
+	variants := 0
+	for _, pr := range m.KnownRoots() {
+		mx := maxSlotOfRoot(m, pr)
+		pn := m.nodes[Ref{pr, mx}]
+		for _, sl := range []Slot{mx + 1, mx + 2} {
+			if sl > s.MaxSlot {
+				continue
+			}
+			for _, nr := range unusedRoots(m, 1) {
+				be := m.epochOf(sl)
+				for je := m.justified.Epoch; je <= be; je++ {
+					jr, ok := m.chainRootAt(pn, m.startSlot(je))
+					if !ok {
+						continue
+					}
+					J := Checkpoint{jr, je}
+					if je == m.justified.Epoch {
+						J = m.justified
+					}
+					for fe := m.finalized.Epoch; fe <= je; fe++ {
+						fr, ok := m.chainRootAt(pn, m.startSlot(fe))
+						if !ok {
+							continue
+						}
+						F := Checkpoint{fr, fe}
+						if fe == m.finalized.Epoch {
+							F = m.finalized
+						}
+						if J == m.justified && F == m.finalized {
+							continue
+						}
+						// classify on a clone that already contains the block
+						c := m.Clone()
+						if !c.ProcessBlock(pr, nr, sl, je, fe) {
+							continue
+						}
+						res, ok := classify(c, nr, J, F)
+						if !ok || !res.Changed {
+							continue
+						}
+						b := OpBlock{pr, nr, sl, je, fe}
+						ops = append(ops, OpBlockUJ{b, OpUJ{nr, J, F, "same"}})
+						if variants < 2 {
+							variants++
+							ops = append(ops, OpBlockUJ{b, OpUJ{nr, J, F, "v0"}}, OpBlockUJ{b, OpUJ{nr, J, F, "shrink"}},
+								OpBlockUJ{b, OpUJ{nr, J, F, "grow"}})
 						}
 					}
 				}
 			}
 		}
+	}
+	return ops
+}
+
+// failing-callback / foreign-trigger variants of an update that would otherwise apply are offered
+// as stand-alone updates: they must be refused and change nothing.
+func refusedVariantOps(in *Inst) []fmt.Stringer {
+	m := in.M
+	var ops []fmt.Stringer
+	e := m.justified.Epoch + 1
+	for _, r := range m.KnownRoots() {
+		if m.first[r] > m.startSlot(e) {
+			continue
+		}
+		J := Checkpoint{r, e}
+		c := m.Clone()
+		res := c.UpdateJustified(RA, J, m.finalized, m.balances, false)
+		if res.Open || !res.Changed {
+			continue
+		}
+		ops = append(ops, OpUJ{RA, J, m.finalized, "err"})
+		if m.pin != nil {
+			for _, t := range append(m.KnownRoots(), RU) {
+				c2 := m.Clone()
+				if r2 := c2.UpdateJustified(t, J, m.finalized, m.balances, false); r2.Err {
+					ops = append(ops, OpUJ{t, J, m.finalized, "same"})
+				}
+			}
+		}
+		return ops
 	}
 	return ops
 }
@@ -193,7 +289,9 @@ func justMenu(nv uint64) func(in *Inst) []fmt.Stringer {
 		s := in.S
 		var ops []fmt.Stringer
 		ops = append(ops, OpHead{}, OpQueries{})
+		ops = append(ops, blockUJOps(in)...)
 		ops = append(ops, ujOps(in, true)...)
+		ops = append(ops, refusedVariantOps(in)...)
 		// pins: every block node, one gap node, one non-existent
 		ngap := 0
 		for _, n := range m.order {
@@ -220,14 +318,17 @@ func justMenu(nv uint64) func(in *Inst) []fmt.Stringer {
 			}
 		}
 		ops = append(ops, OpVote{0, RU, 1})
-		// growth on top: one block on every leaf-ish root, one empty slot
+		// growth on top: one block on every root (store epochs, and a stale-branch variant), one empty slot
 		if len(m.order) < s.MaxNodes {
 			je, fe := m.justified.Epoch, m.finalized.Epoch
 			for _, r := range m.KnownRoots() {
 				mx := maxSlotOfRoot(m, r)
 				if mx+1 <= s.MaxSlot {
 					for _, nr := range unusedRoots(m, 1) {
-						ops = append(ops, OpBlock{r, nr, mx + 1, je, fe}, OpBlock{r, nr, mx + 1, je + 1, fe})
+						ops = append(ops, OpBlock{r, nr, mx + 1, je, fe})
+						if je > 0 {
+							ops = append(ops, OpBlock{r, nr, mx + 1, je - 1, fe})
+						}
 					}
 					ops = append(ops, OpSlot{r, mx + 1, je, fe})
 				}
@@ -246,7 +347,7 @@ func Scenarios(prop string, tier string, sink string) []*Scenario {
 	g := &Scenario{Name: "growth", SPE: 2, Balances: []uint64{10, 10}, Menu: growthMenu(2, false), Sink: sink,
 		Props: all, MaxNodes: 7, MaxSlot: 5}
 	// V: votes on a forked tree with gap slots over two epochs
-	v := &Scenario{Name: "votes", SPE: 2, Balances: []uint64{10, 7, 4}, Sink: sink, Props: all, MaxNodes: 0, MaxSlot: 6,
+	v := &Scenario{Name: "votes", SPE: 2, Balances: []uint64{10, 7, 4}, Sink: sink, Props: all, MaxNodes: 12, MaxSlot: 6,
 		Prefix: []fmt.Stringer{
 			OpBlock{RA, RB, 1, 0, 0}, OpBlock{RA, RC, 1, 0, 0}, OpBlock{RB, RD, 2, 0, 0},
 			OpSlot{RB, 3, 0, 0}, OpBlock{RC, RE, 3, 0, 0},
@@ -254,19 +355,19 @@ func Scenarios(prop string, tier string, sink string) []*Scenario {
 		Menu: func(in *Inst) []fmt.Stringer {
 			ops := []fmt.Stringer{OpHead{}, OpQueries{}}
 			ops = append(ops, voteOps(in.M, 3)...)
-			// a balance change through a justified update to epoch 1 (root A has a gap node at slot 2? no: use B@2 gap)
-			ops = append(ops, ujOps(in, true)...)
+			// balance changes arrive with a justified update (block + update)
+			ops = append(ops, blockUJOps(in)...)
 			return ops
 		}}
-	// J: justification/finalization on a tree spanning epochs 0..2 with a fork across the epoch-1
-	// boundary, a gap slot at the epoch-1 start on one branch, blocks carrying je/fe
+	upd := func(b OpBlock, j, f Checkpoint) OpBlockUJ { return OpBlockUJ{b, OpUJ{b.Root, j, f, "same"}} }
+	// J: a tree spanning epochs 0..2 (store already at justified epoch 1), a conflicting sibling
+	// inserted early; the menu can justify/finalize further with new blocks.
 	j := &Scenario{Name: "justify", SPE: 2, Balances: bal3, Sink: sink, Props: all, MaxNodes: 15, MaxSlot: 7,
 		Prefix: []fmt.Stringer{
 			OpBlock{RA, RB, 1, 0, 0},
 			OpBlock{RA, RD, 1, 0, 0}, // conflicting sibling of B, inserted early
 			OpBlock{RB, RC, 2, 0, 0}, // epoch-1 start with a block
-			OpBlock{RC, RE, 4, 1, 0}, // epoch-2 start, knows justified epoch 1
-			OpBlock{RE, RF, 6, 2, 1}, // epoch-3 start, knows justified epoch 2 / finalized epoch 1
+			upd(OpBlock{RC, RE, 4, 1, 0}, Checkpoint{RC, 1}, Checkpoint{RA, 0}), // epoch-2 start, justifies C/1
 		},
 		Menu: justMenu(2)}
 	// J2: as J, but the conflicting branch (D over the gap slots B@2, B@3) is inserted AFTER the
@@ -276,8 +377,7 @@ func Scenarios(prop string, tier string, sink string) []*Scenario {
 			OpBlock{RA, RB, 1, 0, 0},
 			OpBlock{RB, RC, 2, 0, 0},
 			OpBlock{RB, RD, 3, 0, 0}, // fork from B over the gap slot 2 (B@2, B@3 are gap nodes)
-			OpBlock{RC, RE, 4, 1, 0},
-			OpBlock{RE, RF, 6, 2, 1},
+			upd(OpBlock{RC, RE, 4, 1, 0}, Checkpoint{RC, 1}, Checkpoint{RA, 0}),
 		},
 		Menu: justMenu(2)}
 	// J3: the epoch-1 start slot is a gap slot on the canonical chain: finalizing (B, epoch 1) anchors
@@ -287,8 +387,7 @@ func Scenarios(prop string, tier string, sink string) []*Scenario {
 			OpBlock{RA, RB, 1, 0, 0},
 			OpBlock{RA, RD, 1, 0, 0},
 			OpBlock{RB, RC, 3, 0, 0}, // slot 2 (epoch-1 start) stays empty: gap nodes B@2, B@3
-			OpBlock{RC, RE, 4, 1, 0},
-			OpBlock{RE, RF, 6, 2, 1},
+			upd(OpBlock{RC, RE, 4, 1, 0}, Checkpoint{RB, 1}, Checkpoint{RA, 0}),
 		},
 		Menu: justMenu(2)}
 	switch prop {
@@ -298,6 +397,7 @@ func Scenarios(prop string, tier string, sink string) []*Scenario {
 		out = []*Scenario{j, j3, j2, g}
 		g.Menu = growthMenu(1, true)
 		g.MaxNodes = 6
+		g.MaxSlot = 6
 	case "C11":
 		out = []*Scenario{g, j, j3}
 	}
